@@ -29,6 +29,7 @@ Proof.
     [|exfalso; exact (difference_total _ _ _ D)].
   destruct (forallb (entry_ok l) (oslice ni)); cbn [negb]; [|discriminate].
   destruct (size <? 0); [discriminate|].
+  fold_j_ents l ni. rewrite (own_heads_o _ l o UO Il Io Hid ni D).
   match goal with |- context [values ?x] => change (values x) with (values (j_log l o ni)) end.
   pose proof (values_total _ _ (linv_join _ l o UO Il Io Hid ni D)) as V.
   destruct (values (j_log l o ni)); [discriminate|congruence].
@@ -55,7 +56,7 @@ Proof.
   assert (E0 : N.eqb (l_id l) (l_id o) = true) by (apply N.eqb_eq; exact Hid). rewrite E0 in J. cbn [negb] in J.
   destruct (difference (l_entries o) (oslice (l_heads o)) l) as [ni|] eqn:D; [|discriminate].
   destruct (forallb (entry_ok l) (oslice ni)) eqn:OK; cbn [negb] in J; [|discriminate].
-  cbn [Z.ltb Z.compare] in J. injection J as <-.
+  cbn [Z.ltb Z.compare] in J. fold_j_ents l ni. rewrite (own_heads_o _ l o UO Il Io Hid ni D) in J. injection J as <-.
   assert (TO : times_ok (j_log l o ni)).
   { intros e He. apply ents_In in He. destruct He as [k He]. apply (join_entries _ l o UO Il Io Hid ni D) in He.
     destruct He as [He|He]; [eapply (times_in_range ops r l W Hlen L)|eapply (times_in_range ops src o W Hlen O)]; apply ents_In; eauto. }
@@ -82,7 +83,7 @@ Proof.
   assert (E0 : N.eqb (l_id l) (l_id o) = true) by (apply N.eqb_eq; exact Hid). rewrite E0 in J. cbn [negb] in J.
   destruct (difference (l_entries o) (oslice (l_heads o)) l) as [ni|] eqn:D; [|discriminate].
   destruct (forallb (entry_ok l) (oslice ni)) eqn:OK; cbn [negb] in J; [|discriminate].
-  cbn [Z.ltb Z.compare] in J. injection J as <-.
+  cbn [Z.ltb Z.compare] in J. fold_j_ents l ni. rewrite (own_heads_o _ l o UO Il Io Hid ni D) in J. injection J as <-.
   assert (TO : times_ok (j_log l o ni)).
   { intros e He. apply ents_In in He. destruct He as [k He]. apply (join_entries _ l o UO Il Io Hid ni D) in He.
     destruct He as [He|He]; [eapply (times_in_range ops r l W Hlen L)|eapply (times_in_range ops src o W Hlen O)]; apply ents_In; eauto. }
@@ -184,7 +185,7 @@ Proof.
   assert (E0 : N.eqb (l_id l) (l_id o) = true) by (apply N.eqb_eq; exact Hid). rewrite E0 in J. cbn [negb] in J.
   destruct (difference (l_entries o) (oslice (l_heads o)) l) as [ni|] eqn:D; [|discriminate].
   destruct (forallb (entry_ok l) (oslice ni)) eqn:OK; cbn [negb] in J; [|discriminate].
-  cbn [Z.ltb Z.compare] in J. injection J as <-.
+  cbn [Z.ltb Z.compare] in J. fold_j_ents l ni. rewrite (pown_heads_o _ l o UO Il Io Hid ni D) in J. injection J as <-.
   assert (TO : times_ok (j_log l o ni)).
   { intros e He. apply ents_In in He. destruct He as [k He]. cbn [j_log l_entries] in He.
     apply (proj2 (pj_ents_spec _ l o Il Io Hid ni D)) in He. destruct He as [He|He].
